@@ -1,2 +1,10 @@
 //! Boring, independent reference models.
 pub mod civil;
+pub mod http;
+pub mod urlenc;
+pub mod multipart;
+pub mod cookie;
+pub mod jwt;
+pub mod b64;
+pub mod router;
+pub mod sse;
